@@ -260,6 +260,9 @@ class Cmp:
         for e in m["enums"]:
             t = db.type_by_scoped(e["qname"])
             self.fact()
+            if t is None and (e.get("in_namespace") or (e.get("owner") and not db.type_by_scoped(e["owner"]))):
+                # a namespace member (or a member of a class that is itself not exported) need not be listed
+                continue
             if t is None:
                 self.bad("enum-missing:" + ("scoped" if e["scoped"] else "unscoped"), name=e["qname"])
                 continue
@@ -289,12 +292,32 @@ class Cmp:
                         self.bad("enum-value-scoped-name:" + ("scoped" if e["scoped"] else "unscoped") +
                                  (",nested" if e["owner"] else ""), got=v["scoped_name"], expected=mv["qname"])
         classes = {c["qname"]: c for c in m["classes"]}
+        # names a global signature or base list refers to (members of namespaces are exported only then)
+        referred = set()
+        for c in m["classes"]:
+            for b in c["bases"]:
+                referred.add(b["qname"])
+            if c.get("in_namespace"):
+                continue
+            for f in c["ctors"] + c["methods"]:
+                for t_ in [p["type"] for p in f["params"]] + [f["ret"]]:
+                    referred.add(t_.get("cls") or t_.get("name"))
+        for f in m["functions"]:
+            for t_ in [p["type"] for p in f["params"]] + [f["ret"]]:
+                referred.add(t_.get("cls") or t_.get("name"))
         for c in m["classes"]:
             t = db.type_by_scoped(c["qname"])
             self.fact()
             if t is None:
-                self.bad("class-missing", name=c["qname"])
+                if c.get("in_namespace") and c["qname"] not in referred:
+                    self.res.count("namespace_class_not_referred")
+                    continue
+                if c.get("outer") and classes.get(c["outer"], {}).get("in_namespace") and c["outer"] not in referred:
+                    continue
+                self.bad("class-missing" + (":in-namespace" if c.get("in_namespace") else ""), name=c["qname"])
                 continue
+            if c.get("in_namespace"):
+                self.res.features.add("class:in-namespace")
             self.res.features.add("class:bases=%d%s" % (len(c["bases"]), ":virtual" if any(b["virtual"] for b in c["bases"]) else ""))
             self.fact(3)
             if not (t["is_class"] or t["is_struct"]):
